@@ -140,11 +140,23 @@ fn judge(o: &Opts, bin: &std::path::Path, backend: &str, scratch: &std::path::Pa
             let rel = std::path::Path::new("out");
             cmd.args(args_of(o, rel, o.alg));
         }
+        8 => {
+            // standard output is a device that refuses every write
+            cmd.args(args_of(o, &dir, o.alg));
+            if let Ok(f) = std::fs::OpenOptions::new().write(true).open("/dev/full") {
+                cmd.stdout(f);
+            }
+        }
+        9 => {
+            // standard output and standard error are closed
+            cmd = std::process::Command::new("sh");
+            cmd.arg("-c").arg("exec \"$@\" >&- 2>&-").arg("sh").arg(bin).args(args_of(o, &dir, o.alg));
+        }
         _ => {
             cmd.args(args_of(o, &dir, o.alg));
         }
     }
-    let r = cmd.output();
+    let r = if o.env == 8 { cmd.stderr(std::process::Stdio::piped()).spawn().and_then(|c| c.wait_with_output()) } else { cmd.output() };
     // where the files are expected
     let dir = if o.env == 7 { (0..16).fold(top.clone(), |p, _| p.join("d".repeat(240))).join("out") } else { dir };
     out.transitions += 1;
@@ -325,6 +337,10 @@ pub fn opt_space(backend: &str) -> Space<Opts> {
     for (l, c) in [("sharp s", "\u{df}"), ("long s", "\u{17f}e"), ("dotless i", "\u{131}t"), ("fi ligature", "\u{fb01}"), ("kelvin sign", "\u{212a}r"), ("fullwidth letters", "\u{ff24}\u{ff25}")] {
         d = d.v(format!("non-printable: {}", l), move |o: &mut Opts| o.country = Some(c.to_string()));
     }
+    // every ASCII character outside the PrintableString alphabet, one at a time
+    for c in "!\"#$%&*;<>@[\\]^_`{|}~".chars() {
+        d = d.v(format!("non-printable ascii {:?}", c), move |o: &mut Opts| o.country = Some(format!("B{}R", c)));
+    }
     dims.push(d);
     dims.push(Dim::new("organization").v("non-ascii", |o: &mut Opts| o.org = Some("\u{d6}rg GmbH".into())).v("ascii", |o: &mut Opts| o.org = Some("Plain Org".into())));
     dims.push(Dim::new("client_auth").v("on", |o: &mut Opts| o.client = true));
@@ -358,7 +374,9 @@ pub fn opt_space(backend: &str) -> Space<Opts> {
             .v("options in the opposite order", |o: &mut Opts| o.env = 4)
             .v("TMPDIR names a missing directory", |o: &mut Opts| o.env = 5)
             .v("the working directory has been removed", |o: &mut Opts| o.env = 6)
-            .v("a working directory 4000 bytes deep, relative --output", |o: &mut Opts| o.env = 7),
+            .v("a working directory 4000 bytes deep, relative --output", |o: &mut Opts| o.env = 7)
+            .v("standard output refuses writes (/dev/full)", |o: &mut Opts| o.env = 8)
+            .v("standard output and error closed", |o: &mut Opts| o.env = 9),
     );
     dims.push(Dim::new("history").v("previous run with --ecdsa-p384", |o: &mut Opts| o.previous_run = Some("--ecdsa-p384")).v("previous run with --ed25519", |o: &mut Opts| o.previous_run = Some("--ed25519")));
     Space { base: Opts::base(), dims }
